@@ -50,6 +50,9 @@ type Scenario struct {
 	RcodeAt    int              `json:"rcode_at,omitempty"`
 	WrongID    int              `json:"wrong_id_at,omitempty"` // scripted: envelope index+1 that carries another ID (0 = none)
 	Trailing   bool             `json:"trailing,omitempty"`    // scripted: one more envelope after the closing one
+	DefTimeout bool             `json:"def_timeout,omitempty"` // Transfer.ReadTimeout is left at zero: the documented default of 2 s applies (read_timeout_ms is 2000)
+	QCase      bool             `json:"qcase,omitempty"`       // the zone is asked for in another letter case than the one the sender spells it in
+	LocalClose int              `json:"local_close,omitempty"` // the application closes the transfer's connection itself after taking this many envelopes
 }
 
 const (
@@ -106,6 +109,10 @@ func Gen(seed uint64, tier string) any {
 	sc.ShortRead = core.Pick(r, 0, 40, 90)
 	sc.DelayMs = core.Pick(r, 0, 1, 20)
 	sc.TimeoutMs = core.Pick(r, 2000, 5000, 500)
+	if core.Chance(r, 20) {
+		sc.DefTimeout, sc.TimeoutMs = true, 2000
+	}
+	sc.QCase = core.Chance(r, 15)
 	if core.Chance(r, 15) {
 		sc.PaceMs = sc.TimeoutMs * core.Pick(r, 3, 6, 8) / 10
 	}
@@ -182,6 +189,12 @@ func Gen(seed uint64, tier string) any {
 		case 3:
 			sc.Trailing = true
 		}
+	}
+	if core.Chance(r, 10) {
+		sc.LocalClose = 1 + r.IntN(3)
+	}
+	if sc.TimeoutMs != 2000 {
+		sc.DefTimeout = false
 	}
 	return sc
 }
@@ -386,6 +399,7 @@ type run struct {
 	serveRet            bool
 	outErr              string
 	lastFaultT          time.Time
+	localClosed         bool // the application closed the connection itself while the transfer was running
 }
 
 //go:norace
@@ -403,11 +417,18 @@ func (c *clientTask) RunEvent(time.Time) {
 		k.Unlock()
 	}()
 	t := &dns.Transfer{Conn: &dns.Conn{Conn: x.cliConn}, ReadTimeout: time.Duration(sc.TimeoutMs) * time.Millisecond, WriteTimeout: 5 * time.Second}
+	if sc.DefTimeout {
+		t.ReadTimeout = 0
+	}
+	asked := zone
+	if sc.QCase {
+		asked = "XFR.Example."
+	}
 	q := new(dns.Msg)
 	if strings.HasPrefix(sc.Kind, "ixfr") {
-		q.SetIxfr(zone, clientSerial, "ns1."+zone, "hostmaster."+zone)
+		q.SetIxfr(asked, clientSerial, "ns1."+zone, "hostmaster."+zone)
 	} else {
-		q.SetAxfr(zone)
+		q.SetAxfr(asked)
 	}
 	q.Id = x.qid
 	if sc.Alg != "" && sc.ClientKey {
@@ -432,6 +453,14 @@ func (c *clientTask) RunEvent(time.Time) {
 		k.Unlock()
 		if sc.ConsumerMs > 0 {
 			k.Sleep("consumer.work", time.Duration(sc.ConsumerMs)*time.Millisecond)
+		}
+		if sc.LocalClose > 0 && len(x.items) == sc.LocalClose && it.err == "" {
+			// the application gives up on the transfer (a supervisor, a deadline of its own)
+			k.Lock()
+			x.localClosed = true
+			k.BumpLocked("fault.transfer_closed_by_application")
+			k.Unlock()
+			t.Close()
 		}
 	}
 	closedNow := x.cliConn.IsClosed()
@@ -838,6 +867,23 @@ func (x *run) judge(start0 time.Time) {
 		}
 	}
 	if !x.alwaysChecks() {
+		return
+	}
+	if x.localClosed {
+		// the application closed the connection under the transfer: whatever it had
+		// taken by then is right, and unless that already was the whole transfer the
+		// channel must end with an error, never with a plain close
+		res.Bump("oracle.T3_closed_by_application_reported")
+		if good > model.Good {
+			res.Fail("T3", "delivered-past-error", "the receiver delivered %d envelopes without error, the reference model stops after %d", good, model.Good)
+			return
+		}
+		if !x.sameRecords(recs, good) {
+			return
+		}
+		if !(model.Err == "" && good == model.Good) && lastErr == "" {
+			res.Fail("T3", "error-hidden:closed-by-application", "the application closed the connection after %d envelope(s) of a transfer that needs %d; the channel was closed without an error, as if the transfer were complete", sc.LocalClose, model.Good)
+		}
 		return
 	}
 	if model.Err == "" {
